@@ -18,7 +18,7 @@ from vf.scenario import HINT, ClientLog, FlipLog, Template
 from vf.sched import PCT, RandomWalk, Scheduler, SchedEnv, Scripted, adopt, explore_bounded
 
 STATES = ["absent", "healthy", "pointer_lost", "creation_interrupted"]
-ACTORS = ["create_a", "create_b", "create_a_append", "create_noschema", "load", "table_ctor", "load_append"]
+ACTORS = ["create_a", "create_b", "create_a_append", "create_noschema", "load", "table_ctor", "load_append", "create_a_hintfail"]
 
 SCHEMA_B_FIELDS = [
     {"id": 1, "name": "id", "type": "long", "required": True},
@@ -80,7 +80,7 @@ class Exec:
                 def fn() -> Any:
                     sa = tables.std_schema()
                     sb = tables.schema_of(SCHEMA_B_FIELDS, 2)
-                    if kind in ("create_a", "create_a_append"):
+                    if kind in ("create_a", "create_a_append", "create_a_hintfail"):
                         t = ds.create_table(inst.table_path, schema=sa)
                     elif kind == "create_b":
                         t = ds.create_table(inst.table_path, schema=sb)
@@ -108,6 +108,17 @@ class Exec:
                 name = "ABC"[i]
                 sched.spawn(name, clog.wrap(name, kind, mk(kind, name, 1000 * (i + 1))))
             self.ip.after.append(flips.l1_after)
+            failing = {"ABC"[i] for i, k in enumerate(case["actors"]) if k == "create_a_hintfail"}
+            fired = set()
+
+            def hintfail(op: Any) -> None:
+                if op.phase == "before" and op.path == HINT and op.name in ("local.write_file", "s3.write_file", "s3.write_file_cas"):
+                    me = sched.me()
+                    if me is not None and me.name in failing and me.name not in fired:
+                        fired.add(me.name)
+                        raise OSError("injected: the creator's pointer write failed")
+
+            self.ip.before.append(hintfail)
             if inst.store is not None:
                 inst.store.after.append(flips.s3_after)
                 inst.store.keep_log = False
@@ -116,6 +127,7 @@ class Exec:
                     outcome = sched.run()
             finally:
                 self.ip.after.remove(flips.l1_after)
+                self.ip.before.remove(hintfail)
             viol: List[Tuple[str, str]] = []
             final = reader.read_table(blobs)
             if final.meta is None and final.error == "no pointer":
@@ -160,9 +172,18 @@ class Exec:
                 viol.append((f"existing-schema-replaced:{state}", "persisted schema of the existing table changed"))
             if not set(before_meta["ids"]) <= {s.id for s in final.snapshots}:
                 viol.append((f"existing-snapshots-lost:{state}", "snapshots of the existing table vanished"))
-        else:
+        # exactly one initialisation takes effect: never two initial metadata files (a creator that finds an
+        # interrupted creation - v0 written, pointer missing - must adopt it, not initialise again)
+        v0s = [n for v, n in reader.metadata_versions(blobs) if v == 0]
+        if len(v0s) > 1:
+            viol.append(("more-than-one-initial-metadata-file", f"{len(v0s)} v0 metadata files exist: {v0s}"))
+        if before_meta is None:
             inits = [f for f in flips.flips if f[2].startswith("v0")]
-            if creators and any(e["outcome"] == "acked" for e in creators) and len(inits) != 1:
+            hintfail = any(e["op"] == "create_a_hintfail" for e in clog.events)
+            # (a creator whose own pointer write failed leaves v0 without pointer; the others adopt it and
+            # nobody writes an initial pointer - the first commit will)
+            if creators and any(e["outcome"] == "acked" for e in creators) and \
+                    (len(inits) > 1 or (len(inits) == 0 and not hintfail)):
                 viol.append(("not-exactly-one-initialisation", f"{len(inits)} initial pointer writes observed: {inits}"))
         # rows = existing + acked appends
         exp = list(before_meta["rows"]) if before_meta else []
@@ -214,12 +235,12 @@ class C18(Check):
     worker_timeout_s = {"quick": 1500, "thorough": 7200}
 
     def gen_cases(self, tier: str, seed: int):
-        pairs = [("create_a", "create_b"), ("create_a_append", "create_b"), ("create_a", "load_append"),
+        pairs = [("create_a", "create_b"), ("create_a_append", "create_b"), ("create_a_hintfail", "create_b"), ("create_a", "load_append"),
                  ("create_a_append", "create_a_append"), ("create_noschema", "create_a_append"),
                  ("table_ctor", "create_a"), ("create_b", "load"), ("create_noschema", "load_append")]
         for state in STATES:
             for pr in pairs:
-                bes = ["local", "s3"] if (tier == "thorough" or pr in pairs[:3]) else ["local"]
+                bes = ["local", "s3"] if (tier == "thorough" or pr in pairs[:4]) else ["local"]
                 for be in bes:
                     k = 1 if tier == "quick" else 2
                     nsh = 1 if k == 1 else 8
